@@ -387,6 +387,56 @@ class Ex(StmtMixin, ExprMixin, CallMixin, CompMixin):
       return ps[1]
     raise Unsupported('param spec %r' % (ps,))
 
+  # -- heap-allocated objects (Theory.bind_heap) ---------------------------------------
+
+  def heap_binding(self, sort):
+    hs = getattr(self.theory, 'heap_sorts', {})
+    key = hs.get(getattr(sort, 'name', None))
+    if key is None:
+      return None
+    return key, self.theory.classes[key]
+
+  def heap_name(self, clsname, field):
+    return '$H.%s.%s' % (clsname, field)
+
+  def init_heap(self):
+    for (rp, cn), b in self.theory.classes.items():
+      if b[0] != 'heap':
+        continue
+      ref, fields = b[1], b[2]
+      for f, fs in fields.items():
+        hsort = S.DictOf(ref, fs)
+        self.env[self.heap_name(cn, f)] = V(hsort, hsort.fresh('H_%s_%s' % (cn, f)))
+      al = S.SetOf(ref)
+      self.env['$H.%s.$alloc' % cn] = V(al, al.fresh('alloc_%s' % cn))
+
+  def heap_read(self, recv, attr):
+    (rp, cn), b = self.heap_binding(recv.sort)
+    fs = b[2][attr]
+    h = self.env[self.heap_name(cn, attr)]
+    org = ('heapfield', cn, attr, recv) if isinstance(fs, (S.SetOf, S.DictOf, S.Seq)) else None
+    return V(fs, h.sort.get(h.t, recv.t), origin=org)
+
+  def heap_write(self, recv, attr, val):
+    (rp, cn), b = self.heap_binding(recv.sort)
+    fs = b[2].get(attr)
+    if fs is None:
+      raise ContractMisfit('heap class %s has no field %s in its binding' % (cn, attr))
+    val = self.coerce(val, fs)
+    name = self.heap_name(cn, attr)
+    h = self.env[name]
+    self.env[name] = V(h.sort, h.sort.put(h.t, recv.t, val.t))
+
+  def heap_new(self, key, b):
+    """A fresh reference, different from every allocated one."""
+    ref = b[1]
+    r = V(ref, ref.fresh('new_' + key[1]))
+    an = '$H.%s.$alloc' % key[1]
+    al = self.env[an]
+    self.assume(z3.Not(z3.Select(al.t, r.t)))
+    self.env[an] = V(al.sort, z3.Store(al.t, r.t, z3.BoolVal(True)))
+    return r
+
   def snapshot(self, v):
     if isinstance(v, Obj):
       return Obj(v.clsname, v.module, dict(v.fields))
@@ -435,6 +485,7 @@ class Ex(StmtMixin, ExprMixin, CallMixin, CompMixin):
       try:
         for pn, ps in c.params.items():
           self.env[pn] = self.make_param(pn, ps, mod)
+        self.init_heap()
         self.entry_env = {k: self.snapshot(v) for k, v in self.env.items()}
         for r in c.requires:
           self.assume(self.spec(r))
